@@ -10,7 +10,10 @@
 (T) TRACE, structure: the documented step-by-step workflow is recorded per case (fragment tapes with their Prepare/Measure
     nodes, every expanded configuration, the communication graph) and spec/trace/Trace_Cut.tla decides fits / cut-once / count /
     prep / meas.  Agreement of the implementation's fragments with the generator's model is reported as drift only.
-(S) cut_circuit_mc: parity estimator over S shots must lie within 6 sigma (sigma <= 4^K / sqrt(S)) of the exact value."""
+(S) cut_circuit_mc: the parity estimator over S shots must lie within 6 sigma (sigma <= 4^K / sqrt(S)) of the exact value, for the
+    cases whose exact parity is largest.  Two estimates are taken from the same fragment tapes: as executed by default.qubit, and
+    with all measurements of a one-shot tape read from ONE joint sample (joint_outcomes); the second isolates the post-processing
+    from the device's per-measurement sampling (violation keys mc:estimate-outside-6-sigma[:device-draws-...])."""
 import json
 import math
 import random
